@@ -388,6 +388,8 @@ def main(run, replay=None):
                 stats["unsupported_node"] += 1
             elif r["err"] == "NotImplementedError":
                 stats["refused_not_implemented"] += 1
+            elif r["err"] == "degenerate-zero-integrand":
+                stats["degenerate_zero_integrand"] = stats.get("degenerate_zero_integrand", 0) + 1
             else:
                 failing.append((ci, dict(base_sig(c), what="exception", exc=r["err"]),
                                 "TerminalExpr(LogicalExpr(form, D), D.logical_domain) raises %s: %s" % (r["err"], r.get("msg", "")), True))
